@@ -1,0 +1,71 @@
+//go:build verif
+
+package core
+
+import (
+	"rcproxy/core/codec"
+)
+
+// Verification hooks: add-only, compiled only with -tags verif. They expose unexported
+// logic to the external harness in /verif/harness without changing any production line.
+
+// verifStubConn is a CConn whose inbound bytes are a fixed slice; only the methods the
+// codecs call are implemented (anything else panics on the nil embedded interface).
+type verifStubConn struct {
+	CConn
+	buf       []byte
+	discarded int
+}
+
+func (c *verifStubConn) Peek(n int) ([]byte, error) { return c.buf, nil }
+func (c *verifStubConn) Discard(n int) (int, error) { c.discarded += n; c.buf = c.buf[n:]; return n, nil }
+func (c *verifStubConn) Fd() int                    { return 7 }
+
+// VerifSetCodecs installs an Engine value carrying client/server codecs with the given limit.
+func VerifSetCodecs(limit int) {
+	if EngineGlobal == nil {
+		EngineGlobal = &Engine{ProxyPool: make(map[string]*Pool)}
+	}
+	EngineGlobal.cCodec = CRespCodec{limit}
+	EngineGlobal.sCodec = SRespCodec{limit}
+}
+
+// VerifCDecode is the observable result of CRespCodec.Decode on a byte slice.
+type VerifCDecode struct {
+	Outcome  string // "ok", "invalid" (ErrInvalidResp: cread closes), "wait" (any other error), "nil" ((nil,nil))
+	Consumed int
+	Type     codec.Command
+	Keys     []string
+	Slots    []int32  // Body keys
+	FragKeys []string // Body[slot].Key
+	FragReqs [][]byte // Body[slot].Req
+}
+
+// VerifDecodeClient runs the production client decoder on b (copied, since the decoder
+// lower-cases the command name in place).
+func VerifDecodeClient(limit int, b []byte) VerifCDecode {
+	VerifSetCodecs(limit)
+	c := &verifStubConn{buf: append([]byte(nil), b...)}
+	m, err := EngineGlobal.cCodec.Decode(c)
+	var out VerifCDecode
+	switch {
+	case err == codec.ErrInvalidResp:
+		out.Outcome = "invalid"
+	case err != nil:
+		out.Outcome = "wait"
+	case m == nil:
+		out.Outcome = "nil"
+	default:
+		out.Outcome = "ok"
+		out.Consumed = c.discarded
+		out.Type = m.Type
+		out.Keys = append([]string(nil), m.Keys...)
+		for slot, f := range m.Body {
+			out.Slots = append(out.Slots, slot)
+			out.FragKeys = append(out.FragKeys, f.Key)
+			out.FragReqs = append(out.FragReqs, append([]byte(nil), f.Req...))
+		}
+		MsgPool.Put(m)
+	}
+	return out
+}
